@@ -53,7 +53,7 @@ func init() {
 			})
 		},
 		Require: func(tier string) map[string]int64 {
-			return map[string]int64{"local_closes_checked": 2000, "peer_closes_checked": 1000, "unsendable_refused": 300, "post_close_calls_checked": 500, "close_order_sequences": 50}
+			return map[string]int64{"local_closes_checked": 2000, "peer_closes_checked": 1000, "unsendable_refused": 300, "post_close_calls_checked": 500, "close_order_sequences": 40}
 		},
 		Assumptions: []string{
 			"wire.CodeOnWire (RFC 6455 7.4 + IANA registry: 1000-1003, 1007-1014, 3000-4999) decides which codes are sendable / receivable",
